@@ -59,18 +59,19 @@ Section Honest.
   Lemma keypair_generate_random_inv tape kp rest :
     keypair_generate_random CS tape = Ok (kp, rest) -> vk CS (kp_sk kp) /\ kp_pk kp = k_pub (ke CS) (kp_sk kp).
   Proof.
-    unfold keypair_generate_random. destruct (length tape <? k_Nsk (ke CS)); [discriminate|].
+    unfold keypair_generate_random. destruct (Nat.ltb_spec (length tape) (k_Nsk (ke CS))) as [|Hlt]; [discriminate|].
     destruct (k_derive _ _ _ _) as [s|] eqn:Hs; [|discriminate]. intros [= <- <-]. cbn.
-    split; [eapply (g_derive_valid CS GL); eauto | reflexivity].
+    split; [eapply (g_derive_valid CS GL); [|exact Hs]; now apply length_firstn_le | reflexivity].
   Qed.
 
   Lemma recover_keys_inv rpwd nonce kp :
     recover_keys_internal CS rpwd nonce = Ok kp -> vk CS (kp_sk kp) /\ kp_pk kp = k_pub (ke CS) (kp_sk kp).
   Proof.
     unfold recover_keys_internal, keypair_from_private_key_slice, sk_deserialize. intros H.
-    apply bind_Ok in H as (seed & _ & H). apply bind_Ok in H as (s0 & Hs0 & H).
+    apply bind_Ok in H as (seed & Hseed & H). apply bind_Ok in H as (s0 & Hs0 & H).
     apply bind_Ok in H as (s & Hs & H). injection H as <-. cbn.
-    apply of_option_Ok in Hs0, Hs. pose proof (g_derive_valid CS GL _ _ _ _ Hs0) as [_ Hl].
+    apply of_option_Ok in Hseed, Hs0, Hs.
+    pose proof (g_derive_valid CS GL _ _ _ _ (hkdf_expand_length _ HL _ _ _ _ Hseed) Hs0) as [_ Hl].
     split; [eapply (g_deser_sk_valid CS GL); eauto | reflexivity].
   Qed.
 
